@@ -52,6 +52,12 @@ CHECKS = {
         technique=SYMEX + "; " + XH,
         ref="4 C16",
     ),
+    "C17": dict(
+        text="Bounded: CrossHair kernels on the real label function with module name, aliased module names and alias strings symbolic (well-formed dotted names <= 5 chars over {a,b,.}, one or two aliased modules, arbitrary alias characters): label = alias of the most specific aliased dotted-prefix + remainder, else the name (Confirmed over all paths). SYMEX on the real visualize() with a draw spy over 4 trees with prefix siblings: for every subset of aliased modules, alias for a missing module, presence of spacing / node_size / ax: labels keyed by exactly the node set with the reference values, KeyError naming a missing module, every other keyword reaches draw_networkx unchanged, spacing becomes pos (z3 query 'exists option set: mismatch' over the decision-tree summary).",
+        note="Trusted: CrossHair/z3; draw spy replacing draw_networkx/spring_layout as module globals; alias map handed to the kernel as an association list (counterexamples confirmed through visualize(aliases=dict)). The visualize instances are an exhaustive walk over option bits (degenerate).",
+        technique=XH + "; " + SYMEX,
+        ref="4 C17",
+    ),
 }
 
 NOT_YET = {}
